@@ -237,6 +237,88 @@ def run_case(kind, caller, owner_state, burst, fetch="call"):
     return out
 
 
+def run_idle_case(kind, burst):
+    """the owner's loop exists and is not closed but is not running at the moment of the call (not started yet / between
+    two runs): the calls are issued from another loop, then the owner's loop is run on its own thread.  Only a CLOSED
+    owner loop may drop calls: these must be executed on the owner's thread and their results relayed."""
+    import bellows.thread as bt
+    tgt = Target()
+    out = {"calls": [], "owner_errors": 0, "hang": False}
+    main_tid = threading.get_ident()
+    owner_loop = asyncio.new_event_loop()
+    errs = []
+    owner_loop.set_exception_handler(lambda lp, ctx: errs.append(ctx))
+    proxy = bt.ThreadsafeProxy(tgt, owner_loop)
+    tid = {}
+
+    def owner_thread():
+        tid["owner"] = threading.get_ident()
+        asyncio.set_event_loop(owner_loop)
+        owner_loop.run_forever()
+
+    async def main():
+        issued = []
+        for i in range(burst):
+            try:
+                fn = getattr(proxy, kind)
+            except TypeError:
+                issued.append(("refused", None))
+                continue
+            try:
+                issued.append(("ret", fn(i)))
+            except BaseException as e:  # noqa
+                issued.append(("raised", e))
+        th = threading.Thread(target=owner_thread, daemon=True)
+        th.start()
+        results = []
+        for what, r in issued:
+            if what == "refused":
+                results.append(["refused"])
+                continue
+            if what == "raised":
+                results.append(["other", type(r).__name__])
+                continue
+            try:
+                if asyncio.isfuture(r) or asyncio.iscoroutine(r):
+                    r = await asyncio.wait_for(r, 2.0)
+                results.append(["value", r])
+            except asyncio.TimeoutError:
+                results.append(["timeout"])
+            except asyncio.CancelledError:
+                results.append(["cancelled"])
+            except KeyError as e:
+                results.append(["exception", e.args[0]])
+            except BaseException as e:  # noqa
+                results.append(["other", type(e).__name__])
+        await asyncio.sleep(0.05)
+        owner_loop.call_soon_threadsafe(owner_loop.stop)
+        th.join(5)
+        if th.is_alive():
+            out["hang"] = True
+        out["results"] = results
+
+    loop = asyncio.new_event_loop()
+    asyncio.set_event_loop(loop)
+    t0 = time.time()
+    try:
+        loop.run_until_complete(asyncio.wait_for(main(), 20))
+    except asyncio.TimeoutError:
+        out["hang"] = True
+    except BaseException as e:  # noqa
+        out["crash"] = repr(e)
+    finally:
+        loop.close()
+        if not owner_loop.is_running():
+            owner_loop.close()
+    out["wall"] = round(time.time() - t0, 3)
+    out["owner_tid"], out["main_tid"] = tid.get("owner"), main_tid
+    out["owner_errors"] = sum(1 for c in errs if isinstance(c.get("exception"), TypeError))
+    out["owner_other_errors"] = sum(1 for c in errs if not isinstance(c.get("exception"), TypeError))
+    out["executed"] = [(k, tag, "owner" if t == tid.get("owner") else "caller" if t == main_tid else "other")
+                       for k, tag, t in list(tgt.calls)]
+    return out
+
+
 class Check(PropertyCheck):
     pid = "C20"
     level = "other"
@@ -250,7 +332,7 @@ class Check(PropertyCheck):
     case_type = "(bool * bool * bool * bool * (N * N))"
     shard = 300
     rule = ("every method kind (coroutine returning a value / None / raising, plain returning None / a value / raising, non-callable "
-            "attribute) x caller loop {owner, another thread} x owner-loop state {running, stopping, closed} x bursts of 1..200 concurrent "
+            "attribute) x caller loop {owner, another thread} x owner-loop state {running, stopping, closed, alive but not running at the time of the call} x bursts of 1..200 concurrent "
             "calls, coroutine calls of several kinds (clean-up taking several loop iterations) outstanding when the owner's loop is stopped, the attribute looked up at the call or beforehand on the other loop (hand-over of the callable), with real threads; each call of a burst is one evaluation; non-trivial = caller on another thread; distinct by "
             "(kind, caller, state, burst size)")
     assumptions = ["thread scheduling is not controlled: the runtime half is exploration, not proof",
@@ -272,11 +354,16 @@ class Check(PropertyCheck):
                     fetch = "owner" if caller == "other" else "other"
                     for b in bursts[:2]:
                         cases.append({"kind": kind, "caller": caller, "state": state, "burst": b, "fetch": fetch})
+            # an owner loop that is alive but not running when the calls are made (started afterwards)
+            for b in bursts[:2]:
+                cases.append({"kind": kind, "caller": "other", "state": "idle", "burst": b})
         return cases
 
     def run_impl(self, case):
         if case["kind"] == "stop":
             return run_stop_case(case["pattern"])
+        if case["state"] == "idle":
+            return run_idle_case(case["kind"], case["burst"])
         return run_case(case["kind"], case["caller"], case["state"], case["burst"], case.get("fetch", "call"))
 
     def describe(self, case):
@@ -376,7 +463,7 @@ class Check(PropertyCheck):
                 return f"plain method call returned something to the caller: {r}"
             if i not in ntags:
                 return f"{kind}: call {i} was never executed on a running owner loop"
-        if state == "running" and caller == "other" and kind == "plain_value" and obs["owner_errors"] != burst:
+        if state in ("running", "idle") and caller == "other" and kind == "plain_value" and obs["owner_errors"] != burst:
             return f"a plain method returning a value must raise in the owner loop ({obs['owner_errors']} of {burst})"
         return None
 
